@@ -72,7 +72,7 @@ for p in props:
         na.append({"property_id": p, "reason": PENDING})
 m = {
  "version": 1,
- "setup_cmd": "cd sim && CARGO_NET_OFFLINE=true cargo build --release --offline && CARGO_NET_OFFLINE=true cargo build --offline",
+ "setup_cmd": "cd sim && CARGO_NET_OFFLINE=true cargo build --release --offline && CARGO_NET_OFFLINE=true cargo build --offline && RUSTFLAGS='-Zsanitizer=address --cfg verif_asan' CARGO_NET_OFFLINE=true cargo +nightly build --release --offline --target x86_64-unknown-linux-gnu --target-dir ../target/asan",
  "hooks": {
    "guard": "cargo feature _verif_hooks (off by default)",
    "enable": "the simulator crate depends on lol_html by path with features [\"_verif_hooks\", \"_integration_test\"]; every ./check rebuilds it from /repo's working tree",
